@@ -82,16 +82,53 @@ def builtin_glue(needs_module: str) -> Callable[[InstallGlueFn], InstallGlueFn]:
 
     def decorate(fn: InstallGlueFn) -> InstallGlueFn:
         assert needs_module not in builtin_glue_pending
+        builtin_glue_pending[needs_module] = fn
         if needs_module in sys.modules and "sphinx" not in sys.modules:
-            fn()
-        else:
-            builtin_glue_pending[needs_module] = fn
+            # The module is loaded already, so don't wait until sys.modules
+            # is next seen to have changed. Install through the same code as
+            # later on, so that module-provided glue still takes precedence
+            # and a failure still only produces a warning.
+            with glue_lock:
+                install_glue_for(needs_module)
         return fn
 
     return decorate
 
 
 glue_lock = threading.Lock()
+
+
+def install_glue_for(module_name: str) -> None:
+    # Must be called with glue_lock held
+    builtin_fn = builtin_glue_pending.pop(module_name, None)
+    try:
+        module_fn = sys.modules[module_name].__dict__.pop(
+            "_stackscope_install_glue_", None
+        )
+    except Exception:  # module disappeared, doesn't have a dict, etc
+        module_fn = None
+    try:
+        if _verifhooks.ENABLED and (module_fn is not None or builtin_fn is not None):
+            _verifhooks.point(
+                "before_glue_call",
+                module_name,
+                "module" if module_fn is not None else "builtin",
+            )
+        # Prefer the module-supplied glue over our builtin version
+        # in case both are present
+        if module_fn is not None:
+            module_fn()
+        elif builtin_fn is not None:
+            builtin_fn()
+    except Exception as exc:
+        kind = "module-provided" if module_fn is not None else "stackscope-builtin"
+        exc_str = "".join(traceback.format_exception_only(type(exc), exc)).strip()
+        warnings.warn(
+            f"Failed to initialize {kind} glue for {module_name}: {exc_str}. "
+            "Some tracebacks may be presented less crisply or with "
+            "missing information.",
+            RuntimeWarning,
+        )
 
 
 def add_glue_as_needed(*, _sys_modules_len_cache: list[int] = [0]) -> None:
@@ -106,41 +143,7 @@ def add_glue_as_needed(*, _sys_modules_len_cache: list[int] = [0]) -> None:
             _verifhooks.point("lock_acquired")
         module_names = tuple(sys.modules)
         for module_name in module_names:
-            builtin_fn = builtin_glue_pending.pop(module_name, None)
-            try:
-                module_fn = sys.modules[module_name].__dict__.pop(
-                    "_stackscope_install_glue_", None
-                )
-            except Exception:  # module disappeared, doesn't have a dict, etc
-                module_fn = None
-            try:
-                if _verifhooks.ENABLED and (
-                    module_fn is not None or builtin_fn is not None
-                ):
-                    _verifhooks.point(
-                        "before_glue_call",
-                        module_name,
-                        "module" if module_fn is not None else "builtin",
-                    )
-                # Prefer the module-supplied glue over our builtin version
-                # in case both are present
-                if module_fn is not None:
-                    module_fn()
-                elif builtin_fn is not None:
-                    builtin_fn()
-            except Exception as exc:
-                kind = (
-                    "module-provided" if module_fn is not None else "stackscope-builtin"
-                )
-                exc_str = "".join(
-                    traceback.format_exception_only(type(exc), exc)
-                ).strip()
-                warnings.warn(
-                    f"Failed to initialize {kind} glue for {module_name}: {exc_str}. "
-                    "Some tracebacks may be presented less crisply or with "
-                    "missing information.",
-                    RuntimeWarning,
-                )
+            install_glue_for(module_name)
         # Only update the length cache if we visited every module (rather
         # than bailing out with an exception)
         _sys_modules_len_cache[0] = len(module_names)
